@@ -85,6 +85,13 @@ var (
 		Reason:  wamp.ErrSystemShutdown,
 		Details: wamp.Dict{},
 	}
+	// abortedGoodbye ends a session that the broker or dealer has sent an
+	// ABORT message to. The session's message handler removes the session and
+	// closes the peer; the broker and dealer must not close it themselves.
+	abortedGoodbye = &wamp.Goodbye{ //nolint:gochecknoglobals
+		Reason:  wamp.ErrProtocolViolation,
+		Details: wamp.Dict{},
+	}
 )
 
 // newRealm creates a new realm with the given RealmConfig, broker and dealer.
@@ -457,6 +464,9 @@ func (r *realm) handleInboundMessages(sess *wamp.Session) (bool, bool, error) {
 				default:
 				}
 				return true, false, nil
+			case abortedGoodbye:
+				// ABORT was already sent to the client.
+				return false, false, nil
 			}
 			if r.debug {
 				r.log.Printf("Kill session %s: %s", sess, goodbye.Reason)
